@@ -13,7 +13,7 @@ if os.path.exists('/verif/seeded/MATRIX.txt'):
             matrix[(p[0], p[1])] = (p[2], p[3])
 def rnd(s):
     if s.startswith('revert'): return 0
-    return {'a':1,'b':1,'c':2,'d':2,'e':3,'f':3,'g':4,'h':4,'i':5,'j':5,'k':6,'l':6,'m':7,'n':7,'o':8,'p':8,'q':9,'r':9,'s':10,'t':10}.get(s[-1], 11)
+    return {'a':1,'b':1,'c':2,'d':2,'e':3,'f':3,'g':4,'h':4,'i':5,'j':5,'k':6,'l':6,'m':7,'n':7,'o':8,'p':8,'q':9,'r':9,'s':10,'t':10,'u':11,'v':11,'w':12,'x':12,'y':13,'z':13}.get(s[-1], 14)
 rows = []
 n_total = n_missed = 0
 per_round = {}
